@@ -1322,11 +1322,18 @@ func init() {
 			p.NoJudge = []string{"C02"}
 			p.Actions = append(p.Actions, Action{At: t + r.Dur(ms, 100*ms), Kind: AStart, Inst: who})
 			p.Actions = append(p.Actions, Action{At: t + r.Dur(ms, 200*ms), Kind: AOutDelete, Key: "g1"})
+		} else if r.Bool(0.5) {
+			// started again at the very instant of the cancellation (cancel(); Start(newCtx) back to
+			// back): the library's reaction to the cancellation and the new Start race
+			p.Actions = append(p.Actions, Action{At: t, Kind: AStart, Inst: who})
+			p.Sched = SchedCfg{YieldProb: 0.7}
 		}
 		statusCalls(r, p)
 		p.Until = t + 3*p.TTL + 3*sec
 		p.Tail = 0
-		p.Sched = SchedCfg{YieldProb: Pick(r, []float64{0, 0.2, 0.5}), StallMax: Pick(r, []time.Duration{0, 0, p.H / 50})}
+		if p.Sched.YieldProb == 0 {
+			p.Sched = SchedCfg{YieldProb: Pick(r, []float64{0, 0.2, 0.5}), StallMax: Pick(r, []time.Duration{0, 0, p.H / 50})}
+		}
 		return p
 	}
 }
